@@ -14,6 +14,7 @@ fn hdr_layout<A>() -> Layout {
 
 /// what the generator wants to do next with the owned `Bump`
 enum TopAct {
+    ResetLoop,
     Exec,
     Reset,
     ResetToStart,
@@ -26,6 +27,9 @@ fn next_top(ctx: &mut Ctx) -> TopAct {
         return TopAct::Drop;
     }
     let r = ctx.rng.below(100);
+    if !ctx.fail_injected && ctx.rng.below(1000) < ctx.prof.top * 3 {
+        return TopAct::ResetLoop;
+    }
     if r < ctx.prof.top * 2 {
         match ctx.rng.below(4) {
             0 | 1 => TopAct::Reset,
@@ -58,6 +62,47 @@ fn top_loop<A, const MA: usize, const UP: bool, const GA: bool, const DE: bool, 
                     log_op(ctx, bump.as_mut_scope(), "abandon", "unit");
                 }
                 ctx.ops_left = save - (used_before - ctx.ops_left);
+            }
+            TopAct::ResetLoop => {
+                // ---- C03 (c): a FIXED workload run in a reset() loop stops requesting chunks after
+                // finitely many rounds, and stays quiet afterwards
+                ctx.ops_left = ctx.ops_left.saturating_sub(1);
+                ctx.count("reset loop");
+                let n = 3 + ctx.rng.below(20) as usize;
+                let work: Vec<Layout> = (0..n).map(|_| gen_layout(ctx, 3000)).collect();
+                let mut quiet_round = None;
+                for round in 0..14 {
+                    bump.reset();
+                    ctx.blocks.clear();
+                    ctx.user_cps.clear();
+                    log_op(ctx, bump.as_mut_scope(), "reset", "unit");
+                    let calls0 = BASE.with(|b| b.borrow().alloc_calls);
+                    for l in &work {
+                        let text = format!("allocate {} {} 0 p", l.size(), l.align());
+                        match bump.as_mut_scope().x_allocate(*l, false, Via::Plain, 0) {
+                            Ok((ptr, _)) => {
+                                let id = ctx.add_block(ptr, l.size(), l.align(), Vec::new(), None);
+                                log_op(ctx, bump.as_mut_scope(), &text, &format!("ok {id} {ptr} {}", l.size()));
+                            }
+                            Err(()) => {
+                                log_op(ctx, bump.as_mut_scope(), &text, "err");
+                            }
+                        }
+                    }
+                    let calls = BASE.with(|b| b.borrow().alloc_calls) - calls0;
+                    match quiet_round {
+                        None if calls == 0 => quiet_round = Some(round),
+                        Some(q) if calls != 0 => {
+                            ctx.oracle("C03", format!("RESET-LOOP: round {q} of a fixed workload needed no new memory but round {round} made {calls} request(s)"));
+                            break;
+                        }
+                        Some(q) if round > q => break,
+                        _ => {}
+                    }
+                }
+                if quiet_round.is_none() && BASE.with(|b| b.borrow().total_failures) == 0 {
+                    ctx.oracle("C03", "RESET-LOOP: a fixed workload still requests chunks after 14 reset() rounds".into());
+                }
             }
             TopAct::Reset => {
                 ctx.ops_left -= 1;
